@@ -1212,8 +1212,39 @@ class HistRunner {
     rep->count("destroys");
   }
 
+  // Runs this binary again as a fresh process in the given helper mode; returns its exit code (-1: abnormal end).
+  int run_helper(const char *mode) {
+    fflush(stdout);
+    pid_t pid = fork();
+    if (pid == 0) {
+      sched_detach_child();
+      char exe[4096];
+      ssize_t n = readlink("/proc/self/exe", exe, sizeof exe - 1);
+      if (n <= 0) _exit(0);
+      exe[n] = 0;
+      execl(exe, exe, mode, dir.c_str(), "--cmp", cfg.cmp.c_str(), (char *)nullptr);
+      _exit(0);
+    }
+    int st = 0;
+    waitpid(pid, &st, 0);
+    if (!WIFEXITED(st)) { rep->count("helper_child_abnormal"); return -1; }
+    return WEXITSTATUS(st);
+  }
+  // "The lock is released on close or failed open": with no handle open in this process, another process must be able to
+  // take the directory's LOCK.  The helper only locks and unlocks the LOCK file (lcdb's own ldb_lock_file in a fresh
+  // process); it does not open the database, so the directory stays as this process left it.
+  void expect_lock_free(const char *after) {
+    if (!cfg_lock_probes) return;
+    int rc = run_helper("--locktest");
+    if (rc == 0) VF_FAIL("C20", "after %s the directory's LOCK cannot be taken by another process: the lock was not released", after);
+    if (rc == 7) rep->count("cross_process_lock_release_probes");
+  }
+  bool cfg_lock_probes = true;    // the probes sit in C20's own operations only (each is a fork + exec)
+
   void op_lockprobe() {
     if (!db) { rep->count("skipped_ops"); return; }
+    // while the handle is open another process must find the LOCK taken
+    if (run_helper("--locktest") == 7) VF_FAIL("C20", "another process could take the LOCK of an open database");
     // same process, second handle
     DbOptions o2;
     o2.build(cfg);
@@ -1225,21 +1256,9 @@ class HistRunner {
     // another process: a fresh image (fork + exec of this binary in --lockprobe mode), because a forked child would
     // inherit lcdb's in-memory table of locked files and be refused by that table rather than by the file lock.
     // The probe comes after the refused same-process open on purpose: that refusal must not weaken the lock.
-    fflush(stdout);
-    pid_t pid = fork();
-    if (pid == 0) {
-      sched_detach_child();
-      char exe[4096];
-      ssize_t n = readlink("/proc/self/exe", exe, sizeof exe - 1);
-      if (n <= 0) _exit(0);
-      exe[n] = 0;
-      execl(exe, exe, "--lockprobe", dir.c_str(), "--cmp", cfg.cmp.c_str(), (char *)nullptr);
-      _exit(0);
-    }
-    int st = 0;
-    waitpid(pid, &st, 0);
-    if (WIFEXITED(st) && WEXITSTATUS(st) == 7) VF_FAIL("C20", "ldb_open of the open directory succeeded from another process (after a refused second open in this process)");
-    if (!WIFEXITED(st) || WEXITSTATUS(st) != 0) rep->count("lockprobe_child_abnormal");
+    int hrc = run_helper("--lockprobe");
+    if (hrc == 7) VF_FAIL("C20", "ldb_open of the open directory succeeded from another process (after a refused second open in this process)");
+    if (hrc != 0) rep->count("lockprobe_child_abnormal");
     // the first handle still works
     Op dummy;
     int n = 0;
@@ -1252,6 +1271,7 @@ class HistRunner {
     int variant = op.args.size() ? atoi(op.args[0].c_str()) : 0;
     close_db();
     if (sched_on) sched_quiesce();
+    expect_lock_free("ldb_close");
     auto before = snapshot_dir_bytes(dir);
     DbOptions o2;
     DbConfig c2 = cfg;
@@ -1268,6 +1288,7 @@ class HistRunner {
     if (variant % 3 == 2) rm_rf(target);
     if (sched_on) sched_quiesce();
     if (snapshot_dir_bytes(dir) != before) VF_FAIL("C20", "a refused ldb_open (%s) modified the database files", what.c_str());
+    expect_lock_free(("a refused ldb_open (" + what + ")").c_str());
     // the lock is released after the failed open: a correct open succeeds, from this process and from another
     open_db_tagged("C20", ("correct ldb_open after a failed open (" + what + ")").c_str());
     flush_epoch++;
